@@ -127,12 +127,13 @@ class MoveImportsToTypeCheckingBlockVisitor(ContextAwareTransformer):
         for import_item in import_item_list:
             if import_item.module_name in ("typing", "__future__"):
                 continue
-            if (
-                import_item.module_name == "mypy_extensions"
-                and import_item.obj_name == "TypedDict"
+            if import_item.module_name == "mypy_extensions" and (
+                import_item.obj_name in (None, "TypedDict")
             ):
                 # Base class of the generated TypedDict classes: needed when
-                # the module is imported, not only by annotations
+                # the module is imported, not only by annotations (libcst
+                # spells it `mypy_extensions.TypedDict` when the source
+                # already has a TypedDict of its own)
                 continue
             ret.append(import_item)
         return ret
